@@ -28,6 +28,11 @@ CHECKS = {
         technique="TLA+ Grid spec (tiler design + OnGrid oracle) model-checked by TLC; Gen_Grid points replayed on the real volume-to-precomputed; recorded conversions (store_chunk coordinates, decoded voxels) trace-validated with an exact-rational value map",
         text="TLC proves the tiler design writes every voxel exactly once from the same coordinate with every write on-grid (sizes 1..5 x chunk sizes 1..4 per axis, 1-3 channels; the no-clamp deviation fails); the enumerated (size, chunk, channels) points and seeded tool-generated and sharded sub-process conversions (3-D, 4-D, RGB; all dtype pairs; header scaling, --ignore-scaling, --input-min/max, --mmap; deep/flat x gzip x raw/compressed_segmentation x sharded) are run through the real volume-to-precomputed, read back through a fresh accessor + PrecomputedIO, and judged by Trace_Grid (OnGrid, Unwritten, VoxelValue with an exact-rational Map, ConversionRaised, ExitCode).",
         note=TRUST + "; exact-arithmetic inputs only (integer/dyadic data and scalings); --input-max rescaling judged for uint8/uint16 targets; uint32/uint64 upper saturation left to C11; sharded outputs and compressed_segmentation use cubic chunks/blocks."),
+    "C02": dict(
+        cat="model_checking", ref="5.C02",
+        technique="TLA+ oracle (WellFormed/CSegDecode written from the format text) + relational encoder model-checked by TLC; TLC-enumerated arrays replayed on the real encoder; real encode/decode cases trace-validated against the oracle",
+        text="TLC runs a relational compressed_segmentation encoder (any table order, sharing, placement, width, padding index) over every array of a bounded scope (chunks and blocks <= 2x2x2, 1-2 channels, uint32/uint64) and proves IsEncodingOf => WellFormed /\\ CSegDecode = array, and that the decoder automaton reads it back. Every real encoder output of the run is judged by the same oracle operators (a reader written from the format text, plus the package's own decoder): the TLC-enumerated scope plus seeded shapes 1..9, blocks 1..8 including non-cubic, every bit width 0..32, labels above 2^32 and 2^53, repeated tables.",
+        note=TRUST + "; padding voxels are unconstrained; the 32-bit index width is exercised by one 41^3-block case."),
     "C03": dict(
         cat="model_checking", ref="5.C03",
         technique="TLA+ state machine of the dataset I/O layer (OnGrid oracle, validator design) model-checked by TLC; TLC-generated behaviours replayed on real PrecomputedIO x accessors x codecs and validated by a stateful trace spec; validator judged as a decision function",
@@ -38,6 +43,11 @@ CHECKS = {
         technique="TLA+ definition of the compressed Morton code and routing model-checked by TLC (injective, bounded, monotone, mask algebra at reduced width); real get_cmc / shard key / file name results judged by the TLC trace spec on bit sequences",
         text="TLC proves on all grids <= 6^3 (+ lines to 64) that the specification's compressed Morton code is injective, bounded and monotone, and that the package's uint64 mask arithmetic (transcribed at width 8) equals the oracle routing for every bit triple with total 0..12; the real get_cmc is then executed on every position of those grids including the outer boundary, negative and off-lattice positions, on sampled grids up to 2^21 per axis, and the real shard/minishard keys and file names for triples with totals 0..70; TLC compares every result with the oracle.",
         note=TRUST + "; only integer coordinates are offered."),
+    "C10": dict(
+        cat="model_checking", ref="5.C10",
+        technique="TLA+ decoder parse automaton + field-mutation operators model-checked by TLC with action coverage; TLC-built mutant buffers and valid encodings replayed on the real decoders; recorded decode outcomes (incl. PIL facts for JPEG) trace-validated",
+        text="TLC explores the compressed_segmentation parse automaton on every (structural field x boundary value) mutant of bounded valid encodings, and the raw / JPEG wrapper automata over all size / PIL fact combinations, proving a total outcome in {Ok, Err} and Valid => Ok(CSegDecode) (the code's former deviation positions are shown to violate this). All TLC-built mutants, TLC-built valid encodings (incl. non-cubic blocks) and seeded corrupted byte strings (random, truncations, bit/byte/word edits, inserts, request mismatches) for raw, compressed_segmentation and jpeg are decoded by the real code under a 5 s alarm and judged by TLC: array of the requested shape and dtype or InvalidFormatError; valid data never rejected or mis-decoded.",
+        note=TRUST + "; 'never hangs' is a timeout on executed inputs; JPEG pixel decoding is an environment fact reported by PIL; 'valid' is the strict canonical reading so a decoder is not blamed for rejecting exotic layouts, and lenient right-shaped results on malformed bytes are allowed."),
     "C12": dict(
         cat="model_checking", ref="5.C12",
         technique="TLA+ state machine of the file accessor (paths, gzip/MIME rules, probe order, ghost 'latest' variables) model-checked by TLC; TLC-generated and random store histories replayed on real accessors and validated step by step by a stateful trace spec; confinement probes for both file accessors",
